@@ -150,6 +150,16 @@ class SourceTree:
             if sub is not None:
                 return ModuleRef(f'{full}.{name}')
             return LibRef(f'{full}.{name}')
+        # numeric constants of third-party modules (scipy.constants.angstrom, ...) are read from the installed module
+        if full in ('scipy.constants', 'math'):
+            try:
+                import importlib
+                val = getattr(importlib.import_module(full), name)
+                if isinstance(val, (int, float)):
+                    interp.ctx.use(f'{full}.{name} = {val!r} (installed value)')
+                    return val
+            except Exception:
+                pass
         return LibRef(f'{ALIASES.get(full, full)}.{name}')
 
 
